@@ -104,11 +104,12 @@ _RE_COV = re.compile(r"^<(\w+) line \d+, col \d+ to line \d+, col \d+ of module 
 def run_tlc(module: str, cfg: str | Path, *, cwd: Path | None = None, workers: int | str = "auto",
             env: dict | None = None, extra: list | None = None, timeout: float = 3600,
             coverage: bool = False, deadlock: bool = False, jvm: list | None = None,
-            heap: str = "6g") -> TLCResult:
+            heap: str = "6g", gc: str = "parallel") -> TLCResult:
     """Run TLC on spec/<module>.tla (or cwd/<module>.tla with spec/ as library)."""
     cwd = Path(cwd) if cwd else SPEC
     meta = scratch() / "meta"
-    cmd = ["java", "-XX:+UseParallelGC", f"-Xmx{heap}", f"-DTLA-Library={SPEC}"]
+    gcopt = ["-XX:+UseParallelGC"] if gc == "parallel" else ["-XX:+UseSerialGC", "-XX:ActiveProcessorCount=2"]
+    cmd = ["java", *gcopt, f"-Xmx{heap}", f"-DTLA-Library={SPEC}"]
     cmd += list(jvm or [])
     cmd += ["-cp", JAVA_CP, "tlc2.TLC", "-metadir", str(meta), "-noGenerateSpecTE",
             "-config", str(cfg), "-workers", str(workers)]
@@ -197,14 +198,15 @@ def run_monitor(module: str, cfg: str, shard_files: list[Path], *, timeout: floa
     def one(f: Path):
         env = {"TRACE_FILE": str(f)}
         env.update(extra_env or {})
-        r = run_tlc(module, SPEC / cfg, workers=1, env=env, timeout=timeout, heap="3g")
+        r = run_tlc(module, SPEC / cfg, workers=1, env=env, timeout=timeout, heap="3g", gc="serial")
         return f, r
 
     with cf.ThreadPoolExecutor(max_workers=parallel or NCPU) as ex:
         for f, r in ex.map(one, shard_files):
             summ = tlaval.find_tuples(r.out, "SUMMARY")
             if r.rc != 0 or not summ:
-                tail = "\n".join(r.out.strip().splitlines()[-30:])
+                errs = [ln for ln in r.out.splitlines() if ln.startswith("Error:") or "xception" in ln][:8]
+                tail = "\n".join(errs + r.out.strip().splitlines()[-6:])
                 raise MachineryError(f"trace monitor {module} failed on {f} (rc={r.rc}):\n{tail}")
             s = summ[-1]
             d = dict(zip(s[1::2], s[2::2]))
